@@ -89,6 +89,12 @@ pub fn gen_base(seed: u64, idx: u64) -> Plan {
                 steps.push(Step::Send { data: Blob(w.bytes()), completes: Some(0) });
                 steps.push(Step::AwaitResponses { count: 1, max_ms: AWAIT_MS });
                 steps.push(Step::AwaitEof { max_ms: r.range(1_000, 20_000) });
+                if r.chance(1, 2) {
+                    // a client that lingers: it has seen the server close the
+                    // connection and neither sends anything nor hangs up for
+                    // minutes; shutdown must not wait for it
+                    steps.push(Step::Sleep { ms: r.range(70_000, 200_000) });
+                }
                 reqs.push(w.plan());
             }
             5 => {
@@ -326,7 +332,20 @@ pub fn check_c17(
     let mut required_done_seq = creq.seq;
     let mut inflight = 0;
     let mut last_obligation_t = creq.t;
+    // once a client has read the end of the stream the server has closed that
+    // connection: when such a client hangs up is nothing shutdown may wait for
+    let mut saw_eof: BTreeMap<u32, u64> = BTreeMap::new();
     for e in &out.events {
+        if e.kind == Ev::ClientEof {
+            saw_eof.entry(e.conn).or_insert(e.seq);
+        }
+    }
+    for e in &out.events {
+        if matches!(e.kind, Ev::ClientClose | Ev::ClientReset | Ev::ClientHalfClose)
+            && saw_eof.get(&e.conn).map(|q| e.seq > *q).unwrap_or(false)
+        {
+            continue;
+        }
         match e.kind {
             Ev::HandlerExit
             | Ev::HandlerDropped
